@@ -658,6 +658,48 @@ func init() {
 				}
 			}
 		}
+		// FRAME SEQUENCES around an open header block: HEADERS without END_HEADERS (alone, or continued by one CONTINUATION
+		// that does not end the block either), then a frame of EVERY type octet the reader distinguishes — the ten known
+		// types, extension types just above them, 0xff — on the same stream, another stream, stream 0, with a payload of
+		// the length that type requires (so that the frame itself parses) or none
+		{
+			fr := func(typ, fl byte, sid uint32, payload []byte) []byte {
+				n := len(payload)
+				return append([]byte{byte(n >> 16), byte(n >> 8), byte(n), typ, fl, byte(sid >> 24), byte(sid >> 16), byte(sid >> 8), byte(sid)}, payload...)
+			}
+			settings := fr(4, 0, 0, nil)
+			okLen := map[byte]int{0: 3, 1: 1, 2: 5, 3: 4, 4: 6, 5: 5, 6: 8, 7: 8, 8: 4, 9: 1}
+			for _, open := range [][]byte{
+				fr(1, 0x00, 1, []byte{0x82}),                                  // HEADERS, no END_HEADERS
+				append(fr(1, 0x01, 1, []byte{0x82}), fr(9, 0, 1, []byte{0x86})...), // HEADERS(END_STREAM) + CONTINUATION, block still open
+			} {
+				for _, typ := range []byte{0, 1, 2, 3, 4, 5, 6, 7, 8, 9, 0x0a, 0x0b, 0x0c, 0x10, 0x20, 0x7f, 0xfe, 0xff} {
+					for _, sid := range []uint32{1, 3, 0} {
+						for _, withPayload := range []bool{true, false} {
+							n := 0
+							if withPayload {
+								n = okLen[typ]
+								if typ > 9 {
+									n = 4
+								}
+							}
+							pl := make([]byte, n)
+							if typ == 8 && n == 4 {
+								pl[3] = 1
+							}
+							fl := byte(0)
+							if typ == 9 {
+								continue // (a CONTINUATION is what is legal here; covered by the layouts above)
+							}
+							b := append(append(append([]byte{}, settings...), open...), fr(typ, fl, sid, pl)...)
+							// close the block properly afterwards: a server that swallowed the frame must still cope with the rest
+							b = append(b, fr(9, 0x04, 1, []byte{0x84})...)
+							blobs = append(blobs, hx(b))
+						}
+					}
+				}
+			}
+		}
 		for i := 0; i < len(blobs); i += 40 {
 			j := i + 40
 			if j > len(blobs) {
